@@ -12,6 +12,7 @@ import (
 	"math/rand"
 	"os"
 	"path/filepath"
+	"runtime"
 	"sort"
 	"strconv"
 	"strings"
@@ -469,4 +470,17 @@ func (r *Run) FlushHits() {
 	for c, n := range hits {
 		r.send(childMsg{T: "hit", Clause: c, N: n}, nil)
 	}
+}
+
+// Guard runs one case; a panic of the code under test inside it (on this goroutine) is reported as a
+// violation with the case as witness instead of taking the whole check down.
+func (r *Run) Guard(caseDesc any, f func()) {
+	defer func() {
+		if p := recover(); p != nil {
+			buf := make([]byte, 8192)
+			n := runtime.Stack(buf, false)
+			r.Violation("no-panic", fmt.Sprintf("the code under test panicked: %v", p), map[string]any{"case": caseDesc, "stack": string(buf[:n])})
+		}
+	}()
+	f()
 }
